@@ -8,7 +8,10 @@ import ganzhi as G
 
 
 def run(ctx):
+    ctx.exhaustive = False
+    ctx.exhaustive_note = 'anchor tables and (year, month) tables complete; route agreement over ~470 consecutive scenario days'
     from rules import shared
+    ctx.include('effect_inventory', shared.effect_inventory)   # no new process-wide mutable state (MIR statics inventory)
     ctx.include('month_records', shared.month_records)   # leap table, solstice anchor, month memo, memo cells (shared, cached per source hash)
     ctx.include('jd_tables', shared.jd_tables)           # civil date <-> day number per (year, month) (shared, cached per source hash)
     p = ctx.prog
